@@ -2,8 +2,9 @@
 (* Trace validation (impl -> spec) for EngineCore.  One line per call of      *)
 (* Engine::process (through process_with_audit):                              *)
 (*   {"a":"Reset","post":state,"seq":n}                                       *)
-(*   {"a":"Step","ev":event,"env":env,"tick":tick,"dl":[[..],[..]],           *)
+(*   {"a":"Step","ev":event,"env":env,"tick":tick,"dl":[[..],[..],[..]],      *)
 (*    "disc":[exchange of each on-disconnect call],"post":..}                 *)
+(* (dl, env.link, post.conn.ex: one entry per exchange - three; post.inst: six) *)
 (* The step the specification computes from (state, event, env) is compared   *)
 (* component by component with what the implementation did; the components    *)
 (* that differ and the step properties (C03/C19/C14/C10) that fail on the     *)
